@@ -321,6 +321,13 @@ def _str_percent_format(self, other):
             else:
                 args = (other,)
             if args is not None and any(_is_symbolic(a) for a in args):
+                specs = [m.group(4) for m in _PCT_RE.finditer(self) if m.group(4) != "%"]
+                if len(specs) != len(args) and all(t in "diuxX" for t in specs) \
+                        and all(isinstance(a, (int, SymbolicInt)) for a in args) and "%" not in _PCT_RE.sub("", self):
+                    # CPython rejects the call whatever the integer values are
+                    _hit("M3")
+                    raise TypeError("not enough arguments for format string" if len(specs) > len(args)
+                                    else "not all arguments converted during string formatting")
                 pieces = _percent_pieces(self, args)
                 if pieces is None:
                     _fallback("M3")
@@ -417,6 +424,22 @@ def _ascii_case(self, to_upper, orig):
     return orig(self)
 
 
+# ------------------------------------------------------------------------- M9
+def _str(*a, **kw):
+    """str(bytes_like, encoding=..., errors=...): stock CrossHair's patch of `str` takes no keywords"""
+    if kw or len(a) > 1:
+        with NoTracing():
+            sym = bool(a) and isinstance(a[0], B.CrossHairValue)
+        if sym:
+            enc = kw.get("encoding", a[1] if len(a) > 1 else "utf-8")
+            err = kw.get("errors", a[2] if len(a) > 2 else "strict")
+            _hit("M9")
+            return a[0].decode(enc, err)
+        with NoTracing():
+            return str(*[realize(x) for x in a], **kw)
+    return str(*a)
+
+
 # ------------------------------------------------------------------ from_bytes
 def _int_from_bytes(b, byteorder="big", *, signed=False):
     with NoTracing():
@@ -482,7 +505,7 @@ def install():
     B._BIN_OPS_SEARCH_ORDER.append((ops.rshift, SymbolicInt, int, _rshift))
     B._BIN_OPS.clear()
     OVERRIDES.update({format: _format, str.__mod__: _str_percent_format, hex: _hex,
-                      int: _int, bytes.decode: _bytes_decode, int.from_bytes: _int_from_bytes})
+                      int: _int, bytes.decode: _bytes_decode, int.from_bytes: _int_from_bytes, str: _str})
     B.make_hex_digit = _make_hex_digit
     _orig_upper, _orig_lower = AnySymbolicStr.upper, AnySymbolicStr.lower
     AnySymbolicStr.upper = lambda self: _ascii_case(self, True, _orig_upper)
